@@ -1,7 +1,9 @@
 //! Deterministic simulation with fault injection for chrono's `Local` (properties C05, C16, C18).
 
+mod alloc;
 mod c18;
 mod check05;
+mod check16;
 mod check18;
 mod gen;
 mod model;
@@ -14,6 +16,9 @@ mod worker;
 mod world;
 
 use runner::{Opts, DEFAULT_SEED};
+
+#[global_allocator]
+static GLOBAL: alloc::Counting = alloc::Counting;
 
 fn usage() -> ! {
     eprintln!(
@@ -62,6 +67,11 @@ fn main() {
                 println!("C18 tier={} seed={} threads={}", opts.tier, opts.seed, opts.threads);
                 check18::run(&opts, only)
             }
+            Some("C16") => {
+                let only = config.as_deref().map(|c| check16::Part::parse(c).unwrap_or_else(|| usage()));
+                println!("C16 tier={} seed={} threads={}", opts.tier, opts.seed, opts.threads);
+                check16::run(&opts, only)
+            }
             Some("C05") => {
                 let only = config.as_deref().map(|c| check05::Class::parse(c).unwrap_or_else(|| usage()));
                 println!("C05 tier={} seed={} threads={}", opts.tier, opts.seed, opts.threads);
@@ -83,6 +93,12 @@ fn main() {
                     let cfg = c18::Config::parse(&pos[2]).unwrap_or_else(|| usage());
                     let seed: u64 = pos[3].parse().unwrap_or_else(|_| usage());
                     check18::shard(cfg, seed, from, to, &out)
+                }
+                "C16" => {
+                    // sim shard C16 <part> <seed> <tier> <from> <to> <out>
+                    let part = check16::Part::parse(&pos[2]).unwrap_or_else(|| usage());
+                    let seed: u64 = pos[3].parse().unwrap_or_else(|_| usage());
+                    check16::shard(part, seed, &pos[4], from, to, &out)
                 }
                 "C05" => {
                     // sim shard C05 <class> <seed> <tier> <scale> <from> <to> <out>
@@ -107,6 +123,7 @@ fn main() {
             match v["kind"].as_str() {
                 Some("c18-plan") => check18::replay(&v),
                 Some("c05-case") => check05::replay(&v),
+                Some("c16-input") => check16::replay(&v),
                 _ => {
                     eprintln!("harness error: unknown replay kind");
                     2
